@@ -297,10 +297,10 @@ fn name_driven_checks(rep: &mut Report) {
 pub fn run(rep: &mut Report) {
 	let thorough = rep.thorough();
 	let set = sgen::bases(thorough);
-	let plan = sgen::plan(thorough);
+	let plan = sgen::Plan { escapes: 0, ..sgen::plan(thorough) };
 	let levels: Vec<ggen::GBounds> = c09::levels(thorough).into_iter().filter(|b| b.n <= 3 || (thorough && b.label == "n4-ns2-canonical")).collect();
 	rep.rule = format!(
-		"SAE. Documents: C07's valid ASTs x spellings (tier {}; grammar families: {}; spellings: {}); per document: SchemaMut::canonical_form_rabin_fingerprint = Schema::rabin_fingerprint = LE64(crc64_avro(own canonical text)) [hook H1] and canonical text = vmodel::pcf(AST), fingerprint = LE64(crc64_avro(pcf(AST))) with a bit-serial CRC; the set of fingerprints over all spellings of one AST has one element; forward-reference variants: checksum-of-own-text only. Global: two ASTs with different canonical forms never share a fingerprint (unless the reference CRC collides too). Difference pairs for every valid AST: each single edit that changes the canonical form (wrap any node in an array, int -> long, swap union branches, rename a type, move a type to another namespace, reorder / rename fields, reorder / rename symbols, size + 1) must change the fingerprint, each edit that does not (logical type added to an int or to a named type) must not. Programmatic graphs (C09's levels {}): the two fingerprints agree with the reference for the unfolded graph. Checksum step via hook H2: initial state, the 73 basis vectors (0, 64 unit states, 8 unit bytes) and all 256 table entries against the bit-serial definition, table GF(2)-linear in the byte, joint additivity on all basis pairs — by linearity of `(s >> 8) ^ T[(s ^ b) & 0xff]` in (s, b) this determines all 2^64 x 256 pairs — plus, not relying on that argument, every (state, byte) with state < 2^16 or state = unit high bit ^ low byte, exhaustively. HIST: every history of <= {} operations from {{b = a.clone(); and for a and b: canonical_form_rabin_fingerprint(), serde_json::to_string(), freeze() (consumes the object), 5 edits through nodes_mut() (no change, rename first field, add symbol, fixed size + 1, rename first named type)}} on 5 base schemas (parsed with extra attributes / built with from_nodes; record+enum+fixed+recursion, array on a cycle through a record, enum without symbols, fixed), rebuilt from scratch per history (explicit-state BFS, key = history + all results); invariant after every operation: the fingerprint reported by the object / by the frozen Schema = fingerprint of the reference canonical form of the CURRENT nodes = what a fresh SchemaMut::from_nodes(current nodes) reports. Hook-free: every ASCII character and 6 multi-byte characters driven through a type name. Non-trivial: documents with >= 1 reference or namespace transition (distinct by text), difference pairs (distinct by both texts), graphs with a shared / cyclic named node.",
+		"SAE. Documents: C07's valid ASTs x spellings (tier {}; grammar families: {}; spellings: {}); per document: SchemaMut::canonical_form_rabin_fingerprint = Schema::rabin_fingerprint = LE64(crc64_avro(own canonical text)) [hook H1] and canonical text = vmodel::pcf(AST), fingerprint = LE64(crc64_avro(pcf(AST))) with a bit-serial CRC; the set of fingerprints over all spellings of one AST has one element; forward-reference variants: checksum-of-own-text only. Global: two ASTs with different canonical forms never share a fingerprint (unless the reference CRC collides too). Difference pairs for every valid AST: each single edit that changes the canonical form (wrap any node in an array, int -> long, swap union branches, rename a type, move a type to another namespace, reorder / rename fields, reorder / rename symbols, size + 1) must change the fingerprint, each edit that does not (logical type added to an int or to a named type) must not. Programmatic graphs (C09's levels {}): the two fingerprints agree with the reference for the unfolded graph. Checksum step via hook H2: initial state, the 73 basis vectors (0, 64 unit states, 8 unit bytes) and all 256 table entries against the bit-serial definition, table GF(2)-linear in the byte, joint additivity on all basis pairs — by linearity of `(s >> 8) ^ T[(s ^ b) & 0xff]` in (s, b) this determines all 2^64 x 256 pairs — plus, not relying on that argument, every (state, byte) with state < 2^16 or state = unit high bit ^ low byte, exhaustively. HIST: every history of <= {} operations from {{b = a.clone(); a.clone_from(&b); b.clone_from(&a); and for a and b: canonical_form_rabin_fingerprint(), serde_json::to_string(), freeze() (consumes the object), 5 edits through nodes_mut() (no change, rename first field, add symbol, fixed size + 1, rename first named type)}} on 5 base schemas (parsed with extra attributes / built with from_nodes; record+enum+fixed+recursion, array on a cycle through a record, enum without symbols, fixed), rebuilt from scratch per history (explicit-state BFS, key = history + all results); invariant after every operation: the fingerprint reported by the object / by the frozen Schema = fingerprint of the reference canonical form of the CURRENT nodes = what a fresh SchemaMut::from_nodes(current nodes) reports. Hook-free: every ASCII character and 6 multi-byte characters driven through a type name. Non-trivial: documents with >= 1 reference or namespace transition (distinct by text), difference pairs (distinct by both texts), graphs with a shared / cyclic named node.",
 		rep.tier,
 		sgen::describe_grammars(thorough),
 		sgen::describe_plan(&plan),
